@@ -1,0 +1,45 @@
+//go:build verif
+
+// Contracts for contract-based deductive verification (checked by /verif/govc).
+// This file is comment-only and compiled only with the build tag "verif".
+
+package cpuallocator
+
+// ---- C08 (determinism): the order of the discovered CPU clusters depends only on what sysfs reports -------------
+// takeIdleClusters breaks ties between equally good clusters by their position in topologyCache.clusters, so "the
+// same call on the same state picks the same CPUs" needs that order to be a function of the hardware description,
+// not of Go's map iteration order. discoverCPUClusters appends the clusters package by package in the (sorted)
+// order of sys.PackageIDs(): the clusters it adds are ordered by package id.
+// The sysfs accessors used here are ASSUMED to be read-only.
+//@ iface github.com/containers/nri-plugins/pkg/sysfs.System.Package
+//@ iface github.com/containers/nri-plugins/pkg/sysfs.System.CPU
+//@ iface github.com/containers/nri-plugins/pkg/sysfs.System.CoreKinds
+//@ iface github.com/containers/nri-plugins/pkg/sysfs.System.CoreKindCPUs
+//@ iface github.com/containers/nri-plugins/pkg/sysfs.CPUPackage.DieIDs
+//@ iface github.com/containers/nri-plugins/pkg/sysfs.CPUPackage.LogicalDieClusterIDs
+//@ iface github.com/containers/nri-plugins/pkg/sysfs.CPUPackage.LogicalDieClusterCPUSet
+//@ iface github.com/containers/nri-plugins/pkg/sysfs.CPU.CoreKind
+
+//@ pure byPkg(s []*cpuCluster, from int) bool = (forall i int :: from <= i && i < len(s) ==> s[i] != nil && alive(s[i])) &&
+//@     (forall i int, j int :: from <= i && i < j && j < len(s) ==> s[i].pkg <= s[j].pkg)
+
+//@ func (*topologyCache).discoverCPUClusters tags=C08
+//@   requires c != nil && alive(c.clusters)
+//@   let n0 = len(c.clusters)
+//@   modifies c.clusters, c.kind
+//@   ensures[C08] sys != nil ==> len(c.clusters) >= n0 && (forall i int :: 0 <= i && i < n0 ==> c.clusters[i] == old(c.clusters[i])) && byPkg(c.clusters, n0)
+//@ loop 0 in (*topologyCache).discoverCPUClusters at "range sys.PackageIDs()"
+//@   modifies c.clusters
+//@   invariant[C08] alive(c.clusters) && len(c.clusters) >= n0 && (forall i int :: 0 <= i && i < n0 ==> c.clusters[i] == old(c.clusters[i])) && byPkg(c.clusters, n0)
+//@   invariant[C08] forall i int :: n0 <= i && i < len(c.clusters) ==> rangeindex >= 0 && c.clusters[i].pkg <= $t1[rangeindex]
+//@ loop 1 in (*topologyCache).discoverCPUClusters at "range pkg.DieIDs()"
+//@   modifies nothing
+//@   invariant[C08] forall i int :: 0 <= i && i < len(clusters) ==> clusters[i] != nil && alive(clusters[i]) && clusters[i].pkg == id
+//@ loop 2 in (*topologyCache).discoverCPUClusters at "range pkg.LogicalDieClusterIDs(die)"
+//@   modifies nothing
+//@   invariant[C08] forall i int :: 0 <= i && i < len(clusters) ==> clusters[i] != nil && alive(clusters[i]) && clusters[i].pkg == id
+//@ loop 3 in (*topologyCache).discoverCPUClusters at "range clusters"
+//@   modifies nothing
+//@ loop 4 in (*topologyCache).discoverCPUClusters at "range sys.CoreKinds()"
+//@   modifies c.kind[*]
+//@   invariant[C08] c.kind != nil && newobj(c.kind)
